@@ -286,9 +286,11 @@ def run(ctx):
                       {"engine": "waitop", "case": sc, "original": c, "rule": why[0]})
     explored = None
     if ctx.tier == "thorough":
-        # exhaustive exploration of every two-operation universe with the EXTRACTED model (evidence, not a proof)
+        # exhaustive exploration of two-operation universes with the EXTRACTED model (evidence, not a proof)
         kinds = ["st", "sr", "sw", "fr"]
-        lines = ["%d %d | %s %s" % (a, b, k1, k2) for a in (1, 2) for b in (1, 2) for k1 in kinds for k2 in kinds]
+        # (both tasks v2 = the configurations where moves between tasks are valid; 16 kind pairs, 5.7*10^5 states in all,
+        #  one configuration per core: a few minutes on an idle machine)
+        lines = ["2 2 | %s %s" % (k1, k2) for k1 in kinds for k2 in kinds]
         try:
             outs = vf.run_filter([exe_m, "explore"], lines, shards=16, timeout=5400)
             explored = {"configurations": len(lines), "reachable_states": sum(int(o.split()[1]) for o in outs),
